@@ -51,6 +51,7 @@ class SoapClientPool:
         If no more associations exist, the soap connection gets closed and the soap client deleted.
         """
         self._logger.info('forget_usr called for netloc {} usr_ident {}', netloc, usr_ident)  # noqa: PLE1205
+        soap_client = None
         with self._lock:
             entry = self._soap_clients.get(netloc)
             if entry is None or len(entry.usr_idents) == 0:
@@ -61,13 +62,16 @@ class SoapClientPool:
                 self._logger.info('forget user ref for netloc {}, {} user refs remaining',  # noqa: PLE1205
                                   netloc, len(entry.usr_idents))
             if len(entry.usr_idents) == 0:
-                if entry.soap_client is not None:
-                    self._logger.info('close soap client for netloc {}', netloc)  # noqa: PLE1205
-                    if self.async_loop_subscr_mgr is None:
-                        entry.soap_client.close()
-                    else:
-                        self.async_loop_subscr_mgr.run_coro(entry.soap_client.async_close())
+                soap_client = entry.soap_client
                 self._soap_clients.pop(netloc)
+        if soap_client is not None:
+            # close outside the lock: with the async subscription manager this waits for the event loop,
+            # and the event loop may be waiting for the lock in get_soap_client
+            self._logger.info('close soap client for netloc {}', netloc)  # noqa: PLE1205
+            if self.async_loop_subscr_mgr is None:
+                soap_client.close()
+            else:
+                self.async_loop_subscr_mgr.run_coro(soap_client.async_close())
 
     def close_all(self):
         """Close all connections."""
